@@ -15,17 +15,14 @@ namespace Hive.Derived
 open Hive.Conc
 
 inductive EVCall
-  | evict (slot : Nat)
-  | event (slot : Nat)
+  | evict (slot : Int)
+  | event (slot : Int)
 deriving Repr, DecidableEq
 
 structure EVT where
-  todo : List Nat          -- events returned by `evict()`, not yet triggered by this goroutine
+  todo : List Int          -- events returned by `evict()`, not yet triggered by this goroutine
   script : List EVCall
 deriving Repr, DecidableEq
-
-/-- `startingSlot` of `evict()`. -/
-def EV.start (s : EV) : Nat := match s.last with | none => 0 | some l => l + 1
 
 def evStep (s : EV) (t : EVT) : List (EV × EVT) :=
   match t.todo, t.script with
@@ -35,8 +32,8 @@ def evStep (s : EV) (t : EVT) : List (EV × EVT) :=
   | [], .evict slot :: sc =>
     if s.evicted slot then [(s, { todo := [], script := sc })]
     else
-      [({ s with last := some slot, events := s.events.filter (fun i => !(decide (s.start ≤ i) && decide (i ≤ slot))) },
-        { todo := (List.range' s.start (slot + 1 - s.start)).filter (fun i => s.events.contains i), script := sc })]
+      [({ s with last := some slot, events := s.events.filter (fun i => !decide (i ≤ slot)) },
+        { todo := evFire s.events slot, script := sc })]
 
 def evSys : Sys EV EVT := { step := evStep }
 
